@@ -19,7 +19,7 @@ LEVEL_TEXT = ("Proof + correspondence: Coq model of BaseFeatureWriter.setContext
               " BaseFeatureWriter._contextAt is TRANSLATED from /repo's source on every run (harness/fea_from_source.py -> Generated/FeaGen.v) and proved equal to the model (Fea/ContextTied.v): the context theorems are restated about the translated code.")
 LEVEL_NOTE = ("Trusted: Coq kernel, hand model (correspondence-tested), harness, feaLib parser/serialiser. That feaLib builds GSUB "
               "from the user's statements only is environment, observed through the byte comparison.")
-TECHNIQUE = "Coq proof that _insert preserves the user's statement sequence (all inputs) + vm_compute correspondence with the real _insert; GSUB byte comparison"
+TECHNIQUE = "Coq proof that _insert preserves the user's statement sequence (all inputs; _contextAt translated from source and proved equal to its model) + vm_compute correspondence with the real _insert; GSUB byte comparison"
 IMPORTS = "From U2F Require Import Base.Prelude Fea.Insert."
 RULE = ("abstract feature files of 0-8 top-level statements: user statements, feature blocks for tags {kern,mark,mkmk,liga} with "
         "0-5 items (rules, comments, the '# Automatic Code' marker at top/middle/bottom/alone/twice), generated feature lists "
